@@ -53,6 +53,19 @@ fn main() {
             run_replay(&args[2])
         }
         "selftest" => run_selftest(),
+        "show-scenario" => {
+            // show-scenario <prop> <tier> <index>: the scenario a check executes at that run index
+            let tier = if args.get(3).map(|s| s.as_str()) == Some("thorough") { Tier::Thorough } else { Tier::Quick };
+            let i: u64 = args.get(4).and_then(|s| s.parse().ok()).unwrap_or(0);
+            match engine::spec_for(&args[2], tier) {
+                Some(spec) => {
+                    let runs = runs_override(match tier { Tier::Quick => spec.runs_quick, Tier::Thorough => spec.runs_thorough });
+                    println!("{}", engine::scenario_of(&spec, engine::verif_seed(), tier, i, runs).to_json());
+                    0
+                }
+                None => 2,
+            }
+        }
         "selfhash" => {
             let n = args.get(2).and_then(|s| s.parse().ok()).unwrap_or(100);
             println!("{:016x}", selfhash(n));
@@ -69,8 +82,8 @@ fn main() {
             // worker <prop> <tier> <seed> <k> <n> <runs> <skip,csv>
             let tier = if args[3] == "thorough" { Tier::Thorough } else { Tier::Quick };
             let p = |i: usize| args.get(i).and_then(|s| s.parse::<u64>().ok()).unwrap_or(0);
-            let skip: Vec<u64> = args.get(8).map(|s| s.split(',').filter_map(|x| x.parse().ok()).collect()).unwrap_or_default();
-            procs::worker_main(&args[2], tier, p(4), p(5), p(6), p(7), &skip)
+            let skip: Vec<u64> = args.get(8).map(|s| s.trim_start_matches('s').split(',').filter_map(|x| x.parse().ok()).collect()).unwrap_or_default();
+            procs::worker_main(&args[2], tier, p(4), p(5), p(6), p(7), &skip, p(9))
         }
         "exec-scenario" => procs::exec_scenario_main(&args[2], &args[3]),
         "digest-batch" => {
@@ -238,15 +251,41 @@ fn c07_sweep(seed: u64, sims: u64, cap: f64, t0: std::time::Instant) -> (engine:
 /// the same seed and worker count, which is deterministic per worker thread.
 fn confirm_or_prefix(prop: &str, path: String, v: &props::Violation, tier: Tier, seed: u64, runs: u64, upto: u64) -> String {
     let exe = std::env::current_exe().unwrap();
-    let fresh = |p: &str| std::process::Command::new(&exe).args(["replay", p]).stdout(std::process::Stdio::null()).stderr(std::process::Stdio::null()).status().ok().and_then(|s| s.code());
-    if fresh(&path) == Some(1) {
+    let fresh = |p: &str| -> (Option<i32>, String) {
+        match std::process::Command::new(&exe).args(["replay", p]).stderr(std::process::Stdio::null()).output() {
+            Ok(o) => (o.status.code(), String::from_utf8_lossy(&o.stdout).to_string()),
+            Err(_) => (None, String::new()),
+        }
+    };
+    if fresh(&path).0 == Some(1) {
         return path;
     }
-    let body = json!({"tier": tier.name(), "verif_seed": seed.to_string(), "runs": runs, "upto": upto, "threads": engine::n_threads(),
-        "note": "the minimised/single scenario does not reproduce in a fresh process: the violation depends on state left behind by earlier runs in the same process; this file re-executes run indices 0..=upto of the check"});
-    let p2 = engine::write_replay(prop, "sweep-prefix", body, v, false, json!({"single_scenario_replay_that_did_not_reproduce_alone": path}));
-    println!("note: the single-scenario replay does not reproduce in a fresh process (hidden process/thread state); wrote a sweep-prefix replay instead");
-    p2
+    println!("note: the single-scenario replay does not reproduce in a fresh process: the violation depends on state left behind by earlier runs in the same process (thread-local or process-wide state outside every descriptor)");
+    // deterministic variant first: the sweep prefix on ONE worker thread
+    // runs with a higher index may have been executing concurrently when the violation happened
+    let upto = upto + 4 * engine::n_threads() as u64;
+    for threads in [1usize, engine::n_threads()] {
+        let mut vv = v.clone();
+        let body = json!({"tier": tier.name(), "verif_seed": seed.to_string(), "runs": runs, "upto": upto, "threads": threads, "match": if threads == 1 { "exact-class" } else { "class-head" },
+            "note": "re-executes run indices 0..=upto of the check in a fresh process"});
+        let p2 = engine::write_replay(prop, "sweep-prefix", body.clone(), &vv, false, json!({"single_scenario_replay_that_did_not_reproduce_alone": path}));
+        let (code, out) = fresh(&p2);
+        if code == Some(1) {
+            return p2;
+        }
+        // the prefix may violate the property with another class (e.g. another dimension): record the
+        // class the deterministic run produces so that the file replays exactly
+        if let Some(c) = out.lines().find_map(|l| l.strip_prefix("replayed: class=")) {
+            let _ = std::fs::remove_file(&p2);
+            vv.class = c.trim().to_string();
+            let p3 = engine::write_replay(prop, "sweep-prefix", body, &vv, false, json!({"single_scenario_replay_that_did_not_reproduce_alone": path, "class_seen_in_the_sweep": v.class}));
+            if fresh(&p3).0 == Some(1) {
+                return p3;
+            }
+        }
+    }
+    println!("note: no replay variant reproduced in a fresh process; reporting the single-scenario replay");
+    path
 }
 
 fn check_c07(tier: Tier, seed: u64) -> i32 {
@@ -487,10 +526,7 @@ fn check_c13(tier: Tier, seed: u64) -> i32 {
 }
 
 fn check_c09(tier: Tier, seed: u64) -> i32 {
-    let mut spec = engine::solo_spec("C09").unwrap();
-    if tier == Tier::Thorough {
-        spec.profile.huge_bias = 0.0005;
-    }
+    let spec = engine::spec_for("C09", tier).unwrap();
     let known = engine::load_known();
     let runs = runs_override(match tier { Tier::Quick => spec.runs_quick, Tier::Thorough => spec.runs_thorough });
     let budget = std::time::Duration::from_secs(match tier { Tier::Quick => 60, Tier::Thorough => 180 });
@@ -509,7 +545,31 @@ fn check_c09(tier: Tier, seed: u64) -> i32 {
         // isolated executor (few steps), everything else in-process
         let class = f.violation.class.clone();
         if class.starts_with("process-death") || class == "hang" {
-            return (f.scenario.to_json(), false, json!({"run_index": f.index, "note": "not minimised: needs process isolation"}));
+            // re-observable only from outside the process: a few isolated executions shrink the
+            // opcode range while the worker still dies the same way
+            let mut best = f.scenario.clone();
+            let mut tries = 0;
+            if class.starts_with("process-death") {
+                for _ in 0..6 {
+                    let mut c = best.clone();
+                    c.config.min_opcodes = c.config.min_opcodes * 3 / 4;
+                    c.config.max_opcodes = c.config.max_opcodes * 3 / 4;
+                    for h in c.history.iter_mut() {
+                        if let desc::HOp::Gen(desc::Entropy::Bytes(b)) = h {
+                            let keep = (c.config.max_opcodes.max(c.config.min_opcodes) + 64).min(b.len());
+                            b.truncate(keep);
+                        }
+                    }
+                    tries += 1;
+                    if procs::exec_isolated("C09", &c, std::time::Duration::from_secs(120)).iter().any(|v| v.class == class) {
+                        best = c;
+                    } else {
+                        break;
+                    }
+                }
+            }
+            best.faults.clear();
+            return (best.to_json(), tries > 1, json!({"run_index": f.index, "isolated_minimiser_executions": tries}));
         }
         let (m, tries) = engine::minimise("C09", &f.scenario, &class, exec::Trace::Light, false, 2000, 90.0);
         let still = engine::reproduces("C09", &m, &class, exec::Trace::Light, false);
@@ -644,7 +704,7 @@ pub fn report_and_exit_code(
 }
 
 fn check_solo_family(prop: &str, tier: Tier, seed: u64) -> i32 {
-    let spec = engine::solo_spec(prop).unwrap();
+    let spec = engine::spec_for(prop, tier).unwrap();
     let known = engine::load_known();
     let runs = runs_override(match tier {
         Tier::Quick => spec.runs_quick,
@@ -807,7 +867,7 @@ fn run_replay(path: &str) -> i32 {
             let classes: Vec<String> = if prop == "C07" {
                 let (_, found, _) = c07_sweep(seed, (upto + 1).min(runs.max(upto + 1)), 3600.0, std::time::Instant::now());
                 found.into_iter().map(|f| f.2.class).collect()
-            } else if let Some(spec) = engine::solo_spec(&prop) {
+            } else if let Some(spec) = engine::spec_for(&prop, tier) {
                 engine::sweep_solo_prefix(&spec, tier, seed, runs, upto, &[]).found.into_iter().map(|f| f.violation.class).collect()
             } else {
                 vec![]
@@ -815,7 +875,9 @@ fn run_replay(path: &str) -> i32 {
             for c in &classes {
                 println!("replayed: class={}", c);
             }
-            if classes.iter().any(|c| *c == class) {
+            let head = |c: &str| c.split('(').next().unwrap_or("").to_string();
+            let by_head = b["match"].as_str() == Some("class-head");
+            if classes.iter().any(|c| *c == class || (by_head && head(c) == head(&class))) {
                 println!("VIOLATION property={} replay={}", prop, path);
                 1
             } else {
